@@ -23,10 +23,11 @@ type c14Case struct {
 	Sizes   []int  `json:"sizes"`
 	SC      []int  `json:"start_code_lengths"`
 	Content int    `json:"content"` // 0 non-zero filler, 1 interior single zeros, 2 interior 00 00 03
+	Hdr     int    `json:"header_variant,omitempty"` // other NAL header bits: avc nal_ref_idc = Hdr-1; hevc (layer id, temporal id + 1) = (1,7), (32,1), (63,7)
 }
 
 // c14Unit builds a well-formed NAL unit: header for the type, emulation-free body, last byte != 0.
-func c14Unit(codec string, typ, size, content, serial int) []byte {
+func c14Unit(codec string, typ, size, content, serial, hdrv int) []byte {
 	u := make([]byte, size)
 	hdr := 1
 	if codec == "avc" {
@@ -34,10 +35,22 @@ func c14Unit(codec string, typ, size, content, serial int) []byte {
 		if typ == 6 || typ == 9 {
 			u[0] = byte(typ)
 		}
+		if hdrv > 0 {
+			u[0] = byte((hdrv-1)<<5 | typ)
+		}
 	} else {
-		u[0] = byte(typ << 1)
+		layer, tid := 0, 1
+		switch hdrv {
+		case 1:
+			layer, tid = 1, 7
+		case 2:
+			layer, tid = 32, 1
+		case 3:
+			layer, tid = 63, 7
+		}
+		u[0] = byte(typ<<1 | layer>>5)
 		if size > 1 {
-			u[1] = 1
+			u[1] = byte((layer&31)<<3 | tid)
 		}
 		hdr = 2
 	}
@@ -83,7 +96,7 @@ func c14Check(c *vf.Ctx, cs *c14Case) {
 	n := len(cs.Types)
 	units := make([][]byte, n)
 	for i := 0; i < n; i++ {
-		units[i] = c14Unit(cs.Codec, cs.Types[i], cs.Sizes[i], cs.Content, i)
+		units[i] = c14Unit(cs.Codec, cs.Types[i], cs.Sizes[i], cs.Content, i, cs.Hdr)
 	}
 	stream := nalref.Build(units, cs.SC)
 	if !eqUnits(nalref.Scan(stream), units) {
@@ -313,7 +326,7 @@ func runC14(c *vf.Ctx) {
 		maxSize, maxN = 34, 4
 		c.SetBudget(12 * 60 * 1e9)
 	}
-	c.Rule = "(A) framing: streams of 1..n NAL units, each of EVERY size 1..S (HEVC: 2..S) so that every start-code alignment and total length modulo the machine word is hit, every start-code length pattern in {3,4}^n, content class {non-zero filler, interior single zeros, interior 00 00 03}; (B) types: all type sequences of length 1..4 over {1,5,6,7,8,9} (AVC) / {1,19,20,21,32,33,34,39} (HEVC) with sizes {2,5}; every helper (extract, both conversions, sample walkers, type lists, contains, IDR/RAP, parameter sets from sample and byte stream, nalus of type with and without stopAtVideo, first video NAL unit) is compared with the generating unit list; the byte-at-a-time reference scanner is checked against the generator on every stream; (C) GetNaluType / IsVideoNaluType of both codecs over all 256 header bytes / type values."
+	c.Rule = "(A) framing: streams of 1..n NAL units, each of EVERY size 1..S (HEVC: 2..S) so that every start-code alignment and total length modulo the machine word is hit, every start-code length pattern in {3,4}^n, content class {non-zero filler, interior single zeros, interior 00 00 03}; (B) types: all type sequences of length 1..4 over {1,5,6,7,8,9} (AVC) / {1,19,20,21,32,33,34,39} (HEVC) with sizes {2,5} and the other NAL header bits in 4 variants (AVC nal_ref_idc 0..2 besides the default; HEVC (nuh_layer_id, temporal id + 1) in {(0,1),(1,7),(32,1),(63,7)}); every helper (extract, both conversions, sample walkers, type lists, contains, IDR/RAP, parameter sets from sample and byte stream, nalus of type with and without stopAtVideo, first video NAL unit) is compared with the generating unit list; the byte-at-a-time reference scanner is checked against the generator on every stream; (C) GetNaluType / IsVideoNaluType of both codecs over all 256 header bytes / type values."
 	c.Bound = fmt.Sprintf("framing: n <= %d units, sizes <= %d; type sequences: length <= 4", maxN, maxSize)
 	type shard struct {
 		codec string
@@ -396,8 +409,10 @@ func runC14(c *vf.Ctx) {
 						for k := range sizes {
 							sizes[k], scl[k] = sz+k%2, sc
 						}
-						c14Check(c, &c14Case{Codec: sh.codec, Types: types, Sizes: sizes, SC: scl, Content: 0})
-						cnt++
+						for hv := 0; hv < 4; hv++ {
+							c14Check(c, &c14Case{Codec: sh.codec, Types: types, Sizes: sizes, SC: scl, Content: 0, Hdr: hv})
+							cnt++
+						}
 					}
 				}
 			})
